@@ -197,58 +197,101 @@ Section Writes.
       [apply same_route_refl | exact Hb].
   Qed.
 
-  (** With a fresh-copy accessor no handler write reaches the context: one
-      [Serve] call answers, and leaves behind, exactly what it does with
-      handlers that write nothing - WHATEVER the handlers write. *)
-  Theorem serve_ctx_w_fresh lw fuel : forall rs i c,
-    serve_ctx_w disp meth le AccFresh lw RWRestoreOnMiss fuel rs i c =
-    serve_ctx disp meth le RWRestoreOnMiss fuel rs i c.
+  Variable lw : N -> option hwrite.
+  Variable lsh : N -> nat.
+
+  Let body_w k rs (r : router) c :=
+    match router_serve_with disp meth r c with
+    | OIndex h c' | ODefault h c' | ONode h c' =>
+        if (1000 <=? h)%N
+        then serve_ctx_w disp meth le AccFresh lw lsh RestoreEntry RWRestoreOnMiss k rs (N.to_nat (h - 1000)) c'
+        else ((Z.of_N h, rel c', leaf_res le h), shift c' (lsh h))
+    | OMiss => (((-1)%Z, [], 1%N), miss_ctx r c)
+    | OBadMethod => (((-1)%Z, [], 2%N), miss_ctx r c)
+    | OPanic => (((-1)%Z, [], 3%N), c)
+    | OStuck => (r_stuck, c)
+    end.
+
+  Lemma serve_ctx_w_unfold k rs i c :
+    serve_ctx_w disp meth le AccFresh lw lsh RestoreEntry RWRestoreOnMiss (S k) rs i c =
+    match nth_error rs i with
+    | None => (r_stuck, c)
+    | Some r => if is_miss (fst (body_w k rs r c))
+                then (fst (body_w k rs r c), set_pos (snd (body_w k rs r c)) (c_pos c))
+                else body_w k rs r c
+    end.
+  Proof. cbn [serve_ctx_w]. destruct (nth_error rs i); reflexivity. Qed.
+
+  (** whatever handlers write (they hold a copy) or shift, a [Serve] call
+      changes nothing of the context but the position *)
+  Lemma serve_ctx_w_same fuel : forall rs i c,
+    same_route (snd (serve_ctx_w disp meth le AccFresh lw lsh RestoreEntry RWRestoreOnMiss fuel rs i c)) c.
   Proof.
-    induction fuel as [|k IH]; intros rs i c; [reflexivity|].
-    pose proof (serve_ctx_same RWRestoreOnMiss (S k) rs i c) as SS.
-    cbn [serve_ctx_w serve_ctx] in *.
-    destruct (nth_error rs i) as [r|]; [|reflexivity].
-    cbn [apply_write].
-    set (bw := match router_serve_with disp meth r c with
-      | OIndex h c' | ODefault h c' | ONode h c' =>
-          if (1000 <=? h)%N then serve_ctx_w disp meth le AccFresh lw RWRestoreOnMiss k rs (N.to_nat (h - 1000)) c'
-          else ((Z.of_N h, rel c', leaf_res le h), c')
-      | OMiss => (((-1)%Z, [], 1%N), miss_ctx r c)
-      | OBadMethod => (((-1)%Z, [], 2%N), miss_ctx r c)
-      | OPanic => (((-1)%Z, [], 3%N), c)
-      | OStuck => (r_stuck, c)
-      end).
-    set (b := match router_serve_with disp meth r c with
-      | OIndex h c' | ODefault h c' | ONode h c' =>
-          if (1000 <=? h)%N then serve_ctx disp meth le RWRestoreOnMiss k rs (N.to_nat (h - 1000)) c'
-          else ((Z.of_N h, rel c', leaf_res le h), c')
-      | OMiss => (((-1)%Z, [], 1%N), miss_ctx r c)
-      | OBadMethod => (((-1)%Z, [], 2%N), miss_ctx r c)
-      | OPanic => (((-1)%Z, [], 3%N), c)
-      | OStuck => (r_stuck, c)
-      end) in *.
-    assert (E : bw = b).
-    { unfold bw, b. destruct (router_serve_with disp meth r c); try reflexivity;
-        destruct (1000 <=? h)%N; try reflexivity; apply IH. }
-    rewrite E. destruct (is_miss (fst b)) eqn:M; [|reflexivity].
-    f_equal. apply set_pos_same_route.
-    (* the body's context differs from c in the position only *)
-    clear -b. unfold b.
-    pose proof (router_serve_same disp meth r c) as RS.
-    destruct (router_serve_with disp meth r c); cbn [snd];
-      auto using miss_ctx_same, same_route_refl;
-      (destruct (1000 <=? h)%N; [eapply same_route_trans; [apply serve_ctx_same | exact RS] | exact RS]).
+    induction fuel as [|k IH]; intros rs i c; [apply same_route_refl|].
+    rewrite serve_ctx_w_unfold. destruct (nth_error rs i) as [r|]; [|apply same_route_refl].
+    assert (Hb : same_route (snd (body_w k rs r c)) c).
+    { unfold body_w. pose proof (router_serve_same disp meth r c) as RS.
+      destruct (router_serve_with disp meth r c); cbn [snd];
+        auto using miss_ctx_same, same_route_refl;
+        (destruct (1000 <=? h)%N;
+         [eapply same_route_trans; [apply IH | exact RS]
+         | eapply same_route_trans; [apply same_route_shift | exact RS]]). }
+    destruct (is_miss (fst (body_w k rs r c))); [|exact Hb].
+    cbn [snd]. destruct Hb as [A [B C]]. repeat split; assumption.
   Qed.
 
-  Theorem serve_seq_w_fresh lw fuel rs : forall is c,
-    serve_seq_w disp meth le AccFresh lw RWRestoreOnMiss fuel rs is c =
-    fst (serve_seq disp meth le RWRestoreOnMiss fuel rs is c).
+  (** With a fresh-copy accessor and the deployed wrapper, one [Serve] call
+      answers exactly what it does with handlers that neither write nor shift
+      - WHATEVER the handlers write to what they were handed and however far
+      they shift the route before returning. *)
+  Theorem serve_ctx_w_result fuel : forall rs i c,
+    fst (serve_ctx_w disp meth le AccFresh lw lsh RestoreEntry RWRestoreOnMiss fuel rs i c) =
+    nested disp meth le fuel rs i c.
   Proof.
-    induction is as [|i rest IH]; intros c; cbn [serve_seq_w serve_seq]; [reflexivity|].
-    rewrite serve_ctx_w_fresh.
-    destruct (serve_ctx disp meth le RWRestoreOnMiss fuel rs i c) as [x c'].
-    destruct (is_miss x); [|reflexivity].
-    rewrite IH. destruct (serve_seq disp meth le RWRestoreOnMiss fuel rs rest c') as [[hs f] rl]. reflexivity.
+    induction fuel as [|k IH]; intros rs i c; [reflexivity|].
+    rewrite serve_ctx_w_unfold. cbn [nested].
+    destruct (nth_error rs i) as [r|]; [|reflexivity].
+    assert (E : fst (body_w k rs r c) =
+      match router_serve_with disp meth r c with
+      | OIndex h c' | ODefault h c' | ONode h c' =>
+          if (1000 <=? h)%N then nested disp meth le k rs (N.to_nat (h - 1000)) c'
+          else (Z.of_N h, rel c', leaf_res le h)
+      | OMiss => ((-1)%Z, [], 1%N)
+      | OBadMethod => ((-1)%Z, [], 2%N)
+      | OPanic => ((-1)%Z, [], 3%N)
+      | OStuck => r_stuck
+      end).
+    { unfold body_w. destruct (router_serve_with disp meth r c); try reflexivity;
+        destruct (1000 <=? h)%N; try reflexivity; apply IH. }
+    destruct (is_miss (fst (body_w k rs r c))); cbn [fst]; exact E.
+  Qed.
+
+  (** ... and when it answers Miss, the context is the one the router was
+      ENTERED with - handler shifts included. *)
+  Theorem serve_ctx_w_miss_restores fuel rs i c :
+    is_miss (fst (serve_ctx_w disp meth le AccFresh lw lsh RestoreEntry RWRestoreOnMiss fuel rs i c)) = true ->
+    snd (serve_ctx_w disp meth le AccFresh lw lsh RestoreEntry RWRestoreOnMiss fuel rs i c) = c.
+  Proof.
+    destruct fuel as [|k]; [reflexivity|].
+    pose proof (serve_ctx_w_same (S k) rs i c) as SS.
+    rewrite serve_ctx_w_unfold in *. destruct (nth_error rs i) as [r|]; [|reflexivity].
+    destruct (is_miss (fst (body_w k rs r c))) eqn:M; cbn [fst snd] in *.
+    - intros _. apply set_pos_same_route.
+      destruct SS as [A [B C]]. cbn in A, B, C. repeat split; assumption.
+    - intros H. rewrite M in H. discriminate.
+  Qed.
+
+  Theorem serve_seq_w_fresh fuel rs : forall is c,
+    serve_seq_w disp meth le AccFresh lw lsh RestoreEntry RWRestoreOnMiss fuel rs is c =
+    seq_ref disp meth le fuel rs is c.
+  Proof.
+    induction is as [|i rest IH]; intros c; cbn [serve_seq_w seq_ref]; [reflexivity|].
+    pose proof (serve_ctx_w_result fuel rs i c) as R.
+    pose proof (serve_ctx_w_miss_restores fuel rs i c) as M.
+    destruct (serve_ctx_w disp meth le AccFresh lw lsh RestoreEntry RWRestoreOnMiss fuel rs i c) as [x c'].
+    cbn [fst snd] in R, M. subst x.
+    destruct (is_miss (nested disp meth le fuel rs i c)); [|reflexivity].
+    rewrite (M eq_refl), IH. reflexivity.
   Qed.
 End Writes.
 
@@ -267,10 +310,33 @@ Definition ex_rs_w : list router :=
     | Some (r, _) => r | None => new_router end ].
 Definition ex_ctx_w : ctx := new_ctx (slash :: s_docs ++ slash :: s_secret) s_get.
 Definition ex_lw (h : N) : option hwrite := if (h =? 1)%N then Some (w_fill s_index) else None.
+Definition no_shift (h : N) : nat := 0.
 
 Lemma alias_accessor_refuted :
-  serve_seq_w dispatch_cond method_reject [(1%N, 1%N)] AccAlias ex_lw RWRestoreOnMiss 8 ex_rs_w [0; 1]%nat ex_ctx_w
+  serve_seq_w dispatch_cond method_reject [(1%N, 1%N)] AccAlias ex_lw no_shift RestoreEntry RWRestoreOnMiss 8 ex_rs_w [0; 1]%nat ex_ctx_w
     = ([(1%Z, s_secret); (2%Z, [])], 0%N) /\
-  serve_seq_w dispatch_cond method_reject [(1%N, 1%N)] AccFresh ex_lw RWRestoreOnMiss 8 ex_rs_w [0; 1]%nat ex_ctx_w
+  serve_seq_w dispatch_cond method_reject [(1%N, 1%N)] AccFresh ex_lw no_shift RestoreEntry RWRestoreOnMiss 8 ex_rs_w [0; 1]%nat ex_ctx_w
     = ([(1%Z, s_secret)], 1%N).
+Proof. vm_compute. split; reflexivity. Qed.
+
+(** Seeded change C20-i: on Miss the router undoes only its OWN shift.  GET
+    /u/settings; router 0 has the directory "u" whose handler 1 calls
+    [c.ShiftRoute(1)] and declines; router 1 has the file "settings"
+    (handler 2).  The handler's shift stays in the context and handler 2
+    runs; restoring the position the router was entered with answers Miss. *)
+Definition s_u : str := [117%N].
+Definition s_settings : str := [115; 101; 116; 116; 105; 110; 103; 115]%N.
+Definition ex_rs_sh : list router :=
+  [ match router_add_svc new_router s_u (Some 1%N) true [] with Some (r, _) => r | None => new_router end;
+    match router_add_svc new_router s_settings (Some 2%N) false [] with Some (r, _) => r | None => new_router end ].
+Definition ex_ctx_sh : ctx := new_ctx (slash :: s_u ++ slash :: s_settings) s_get.
+Definition ex_lsh (h : N) : nat := if (h =? 1)%N then 1%nat else 0%nat.
+
+Lemma undo_own_shift_refuted :
+  serve_seq_w dispatch_cond method_reject [(1%N, 1%N)] AccFresh (fun _ => None) ex_lsh UndoOwnShift RWRestoreOnMiss 8
+              ex_rs_sh [0; 1]%nat ex_ctx_sh
+    = ([(1%Z, s_settings); (2%Z, [])], 0%N) /\
+  serve_seq_w dispatch_cond method_reject [(1%N, 1%N)] AccFresh (fun _ => None) ex_lsh RestoreEntry RWRestoreOnMiss 8
+              ex_rs_sh [0; 1]%nat ex_ctx_sh
+    = ([(1%Z, s_settings)], 1%N).
 Proof. vm_compute. split; reflexivity. Qed.
